@@ -8,7 +8,7 @@ import common as c
 import C18
 
 N = {"quick": 6000, "thorough": 200000}
-MODEL_OPS = {"KR", "KO", "KT", "LP", "LD", "SJ", "SD"}
+MODEL_OPS = {"KR", "KO", "KT", "LP", "LD", "SJ", "SD", "DS", "DP"}
 # the implementation-only streams: result -> is it a violation of the property?
 ORACLE_OK = {"RT": {"ok"}, "SB": {"ok"}, "FZ": {"error", "value"}, "AB": {"rejected"}, "SU": {"ok", "rejected-on-the-wire"}}
 
@@ -83,7 +83,7 @@ def run(a):
                         "JSON and of five single-field changes; FZ/AB: random and mutated (truncate, bit flip, insert, delete, first byte) "
                         "bytes through every decoder and CheckTx/DeliverTx; KR/KO/KT: rank and time keys (zones, nanoseconds, year "
                         "bounds) vs model; LP/LD: uvarint frames vs model; SJ/SD: canonical JSON of random trees (duplicate keys, "
-                        "alternative escapes, whitespace) and real sign bytes vs model; distinct = distinct op text",
+                        "alternative escapes, whitespace) and real sign bytes vs model; DS/DP: Dec.String and NewDecFromStr (18-digit boundary, fewer decimals, leading zeros, malformed) vs model; distinct = distinct op text",
                 "samples": samples, "traces_validated_against_impl": compared if model is not None else 0,
                 "correspondence_mismatches": corr_bad, "oracle_failures": oracle_bad,
                 "op_distribution": json.load(open(os.path.join(out, "codec.stats.json"))),
